@@ -20,7 +20,14 @@ import (
 
 type Rand struct{ s uint64 }
 
-func NewRand(seed int64) *Rand { return &Rand{s: uint64(seed)*0x9E3779B97F4A7C15 + 0x1234567} }
+// NewRand: the seed is mixed (splitmix64 finaliser) so that neighbouring seeds give unrelated
+// streams (a plain multiple of the increment would make seed+1 the same stream shifted by one).
+func NewRand(seed int64) *Rand {
+	z := uint64(seed) + 0x632BE59BD9B4E019
+	z = (z ^ (z >> 30)) * 0xBF58476D1CE4E5B9
+	z = (z ^ (z >> 27)) * 0x94D049BB133111EB
+	return &Rand{s: z ^ (z >> 31)}
+}
 func (r *Rand) U64() uint64 {
 	r.s += 0x9E3779B97F4A7C15
 	z := r.s
